@@ -11,27 +11,38 @@ import sys
 VERIF = os.path.dirname(os.path.dirname(os.path.abspath(__file__)))
 CLAIMED = ["C01", "C02", "C09", "C11", "C12", "C13", "C14", "C17", "C18", "C19", "C20"]
 OBS = {
-    "C19": ["modules that package discovery does not find (a sub-directory without __init__.py) register their commands only when someone imports them",
+    "C19": ["factory-made classes (type(name, (Command,), ns)) are filed under mpilot.commands", "a library module that raises after its class statement leaves that class registered", "threads racing on the registry", "a user command named like an EEMS 2.0 keyword (MAX, SUM ...) is rewritten before lookup", "the CLI treats every library name but eems-csv as NetCDF",
+            "modules that package discovery does not find (a sub-directory without __init__.py) register their commands only when someone imports them",
             "a re-defined / reloaded command class leaves the first definition registered",
             "load_commands executes fresh copies of library modules that are not the ones in sys.modules"],
-    "C02": ["integer columns wrap at 2**63 in Multiply / Sum", "dependency chains deeper than about 330 commands fail with UnexpectedError (recursion)",
+    "C02": ["FuzzyXOr / FuzzySelectedUnion mix rows and layers on grids of rank >= 2", "NormalizeZScore with StartVal > EndVal", "unsigned (Positive Integer) data wraps at zero", "0-d NetCDF variables give numpy scalars", "CSV Integer columns are parsed through float()", "an EEMSWrite target that an independent EEMSRead also reads", "curve commands lose precision on data with a large offset",
+            "integer columns wrap at 2**63 in Multiply / Sum", "dependency chains deeper than about 330 commands fail with UnexpectedError (recursion)",
             "NaN cells make NormalizeCurve-family commands return uninitialised memory for those cells"],
-    "C17": ["a header name containing a carriage return cannot be read back (newline translation)", "1_000 is accepted as a number",
+    "C17": ["Integer reads truncate cells and the missing value before comparing", "integers above 2**53", "a Latin-1 byte or an over-long cell in another column", "reader.line_num is the last line of a multi-line data record",
+            "a header name containing a carriage return cannot be read back (newline translation)", "1_000 is accepted as a number",
             "masked cells are written as -- and that column cannot be read back", "ragged rows raise UnexpectedError"],
-    "C20": ["a string of more than 4300 digits cleans to infinity", "clean() without a program raises AttributeError for paths and results",
+    "C20": ["ResultParameter checks the declared kind before the producer ran and the real result after", "an int of more than 4300 digits breaks str()", "numpy arrays given for tuple / data type parameters", "NumberParameter returns a bool for True", "a command object is turned into text by string and path parameters", "nested lists are not cleaned below the first level by an untyped ListParameter",
+            "a string of more than 4300 digits cleans to infinity", "clean() without a program raises AttributeError for paths and results",
             "NaN strings do not compare equal after cleaning"],
-    "C11": ["a command whose result name and command name are on different lines carries the line of the command name",
+    "C11": ["SyntaxErrors carry a character position only", "EmptyInputs / MixedArrayShapes / EmptyDataFile / InvalidDataFile are raised without a line (execute-time, data dependent)", "an EEMS 2.0 command name converts the whole file",
+            "a command whose result name and command name are on different lines carries the line of the command name",
             "errors about list arguments carry the line of the opening bracket", "a lone CR inside a comment swallows the rest up to the next LF"],
-    "C12": ["a cyclic model is rejected only after its acyclic output commands ran", "a wrong option string (Direction = Sideways) is only rejected inside execute",
+    "C12": ["Copy of a fuzzy result is not fuzzy (fuzziness belongs to the command class)", "Command.result / Command.run() skip the whole-model check", "the output-kind check compares the outermost parameter class only", "EEMS 2.0 result names are taken unconverted", "unquoted values are rebuilt from their tokens (PositiveFloat)", "long dependency chains hit the recursion limit",
+            "a cyclic model is rejected only after its acyclic output commands ran", "a wrong option string (Direction = Sideways) is only rejected inside execute",
             "mixing EEMS 2.0 commands into a file drops OutFileName / NewFieldName arguments"],
-    "C13": ["a dependency chain deeper than the recursion limit gives UnexpectedError (accepted)", "the model file itself being unreadable / undecodable is not judged",
+    "C13": ["numpy values / huge ints passed through add_command", "DeprecationWarning under -W error for unknown escapes", "python -OO removes the grammar docstrings",
+            "a dependency chain deeper than the recursion limit gives UnexpectedError (accepted)", "the model file itself being unreadable / undecodable is not judged",
             "-l with a module that does not exist raises ModuleNotFoundError in the CLI"],
-    "C18": ["checks run before the MissingValue mask is applied", "a float32 variable never matches a MissingValue that is not representable in float32",
+    "C18": ["the documented parameter name MissingVal is MissingValue in the code", "MissingValue = nan is ignored", "a result named like a template dimension / listed twice fails in EEMSWrite", "Integer reads truncate float32 but round float64", "OutFileName equal to DimensionFileName destroys the template",
+            "checks run before the MissingValue mask is applied", "a float32 variable never matches a MissingValue that is not representable in float32",
             "fractional MissingValue with integer reads is unspecified"],
-    "C14": ["a cyclic program whose acyclic part fails first is rejected with that other error", "two threads evaluating one program concurrently is out of scope"],
-    "C01": ["deep chains exceed the recursion limit", "a producer whose real result contradicts its declared output kind makes a second run() raise",
+    "C14": ["a program that is nothing but a cycle may be rejected with a fuzziness / kind error raised by the argument check",
+            "a cyclic program whose acyclic part fails first is rejected with that other error", "two threads evaluating one program concurrently is out of scope"],
+    "C01": ["with CR-only line breaks a # comment swallows the following commands (lexer)",
+            "deep chains exceed the recursion limit", "a producer whose real result contradicts its declared output kind makes a second run() raise",
             "two threads evaluating one program concurrently is out of scope"],
-    "C09": ["single-input Minimum/Maximum/FuzzyOr/FuzzyAnd return the input object itself (no violation by itself)"],
+    "C09": ["single-input FuzzyOr / FuzzyAnd clamp the array of a producer flagged fuzzy that holds values outside [-1, 1]", "FuzzyNot shares its mask buffer with its input",
+            "single-input Minimum/Maximum/FuzzyOr/FuzzyAnd return the input object itself (no violation by itself)"],
 }
 
 
